@@ -462,6 +462,75 @@ def run_cli(case, agg):
                 return
     agg.ok(h8("c15cli", case), f"ok:cli:{case['cmd']}", sample=case if case["args"] and case["args"][0] == "--array-type" else None)
 
+# -- every standard PEM form of a private key; the keys command's own output fed to convert -------------------
+PEM_FORMS = ["pkcs8", "traditional", "pkcs8-crlf", "traditional-crlf", "pkcs8-no-final-newline", "pkcs8-leading-blank-lines", "pkcs8-trailing-text",
+             "keys-pkcs8", "keys-pkcs1"]
+
+
+def pemform_cases(tier):
+    return [{"k": k, "form": f, "cols": cols} for k in CONV_KEYS for f in PEM_FORMS for cols in ((8, 7) if tier == "quick" else (8, 1, 3, 7, 12, 19, 31, 131))]
+
+
+def run_pemform(case, agg):
+    """convert accepts what standard tooling accepts as a PEM private key (PKCS#8 and, for the NIST curves, the
+    traditional 'EC PRIVATE KEY' form; either line ending; text around the armour) and what `keys` itself writes; the
+    array is exactly the public key in every case"""
+    from suit_generator import cmd_convert, cmd_keys
+    from .. import keys as vkeys
+    kind, form = case["k"], case["form"]
+    is_ec = kind.startswith("p")
+    label = f"convert of a {kind} key given as {form} PEM, {case['cols']} columns"
+    with fresh_dir("c15p") as d:
+        inp, out = os.path.join(d, "key.v1.pem"), os.path.join(d, "k.c")
+        if form.startswith("keys-"):
+            t = {"p256": "secp256r1", "p384": "secp384r1", "p521": "secp521r1"}.get(kind, kind)
+            try:
+                cmd_keys.main(output_file=os.path.join(d, "key.v1"), type=t, encoding="pem", private_format=form[5:], public_format="default", encryption="none")
+            except Exception as e:
+                agg.rej(h8("c15p", case), f"keys-refused:{type(e).__name__}", nontrivial=False)
+                return
+            inp = os.path.join(d, "key.v1_priv.pem")
+            blob = open(inp, "rb").read()
+        else:
+            priv = vkeys.private_key(kind + "_conv")
+            if form.startswith("traditional"):
+                if not is_ec:
+                    agg.rej(h8("c15p", case), "no-traditional-form-for-this-type", nontrivial=False)
+                    return
+                blob = priv.private_bytes(serialization.Encoding.PEM, serialization.PrivateFormat.TraditionalOpenSSL, serialization.NoEncryption())
+            else:
+                blob = priv.private_bytes(serialization.Encoding.PEM, serialization.PrivateFormat.PKCS8, serialization.NoEncryption())
+            if form.endswith("crlf"):
+                blob = blob.replace(b"\n", b"\r\n")
+            elif form.endswith("no-final-newline"):
+                blob = blob.rstrip(b"\n")
+            elif form.endswith("leading-blank-lines"):
+                blob = b"\n\n" + blob
+            elif form.endswith("trailing-text"):
+                blob = blob + b"\n# generated for the release build\n"
+            open(inp, "wb").write(blob)
+        try:
+            priv = serialization.load_pem_private_key(blob, None)
+        except Exception as e:
+            agg.rej(h8("c15p", case), f"standard-tooling-refuses:{type(e).__name__}", nontrivial=False)
+            return
+        o = dict(DEFAULTS)
+        o["columns_count"] = case["cols"]
+        try:
+            cmd_convert.main(input_file=inp, output_file=out, **o)
+            text = open(out, encoding="utf-8").read()
+        except Exception as e:
+            agg.viol(f"C15:convert/pem-form-refused/{type(e).__name__}", f"{label}: standard tooling loads the file, convert fails: {type(e).__name__}: {str(e)[:200]}")
+            return
+    got, problems, _ = parse_c(text)
+    want = expected_public(priv)
+    if got is None or problems:
+        agg.viol("C15:convert/malformed-c", f"{label}: {problems[:2]}")
+    elif got != want:
+        agg.viol(f"C15:convert/{kind}/wrong-bytes", f"{label}: array {got[:8].hex()} ({len(got)} bytes), public key {want[:8].hex()} ({len(want)})")
+    else:
+        agg.ok(h8("c15p", case), f"ok:{form}", sample=case if form == "traditional-crlf" and kind == "p521" else None)
+
 
 def plan(tier):
     return [
@@ -471,6 +540,8 @@ def plan(tier):
         CaseStage("convert-ed", lambda: ed_cases(tier), run_ed, chunk=1, rule="Ed25519/Ed448 from seeds 0..255"),
         CaseStage("converter-object-reused", lambda: convobj_cases(tier), run_convobj,
                   rule="all sequences of <= 3 operations {prepare, generate} x {key file kept, key file replaced} on one KeyConverter object"),
+        CaseStage("convert-pem-forms", lambda: pemform_cases(tier), run_pemform,
+                  rule="5 key types x 9 PEM forms (PKCS#8 / traditional EC, CRLF, text around the armour, the keys command's own pkcs8 / pkcs1 output) x column counts"),
         CaseStage("cli", lambda: cli_cases(tier), run_cli, rule="real CLI: keys with default / explicit options; convert with every option"),
         CaseStage("convert-formatting", lambda: fmt_cases(tier), run_fmt, disjoint=True, rule="columns x indent x tab x no-length x no-const x length type"),
     ]
